@@ -355,6 +355,12 @@ C17(pre, e, post, line) ==
          Chk("C17", "deposits_cover_debt", line, RGe(RAdd(RefAssets(q), RMul(RInt(2), U)), RefLiabs(q)), [bank |-> bn, ev |-> e.ev])
     /\ (e.ev = "deposit" /\ Has(e.a, "up_to_limit") /\ e.a.up_to_limit = TRUE) =>
          /\ Chk("C17", "up_to_limit_never_fails_for_capacity", line, e.err # "BankAssetCapacityExceeded", [bank |-> bn, err |-> e.err])
+         \* ... under whatever error name: with less than one token of room left under the limit (no interest pending, so the
+         \* recorded totals are what the handler measured) the deposit is cut down to nothing, it does not fail
+         /\ (~Ok(e) /\ b.cfg.deposit_limit # U64MAXB /\ b.last_update = pre.clock.ts /\ RLt(RefAssets(b), ROfBig(b.cfg.deposit_limit))
+             /\ RGt(RAdd(RefAssets(b), ROne), ROfBig(b.cfg.deposit_limit))) =>
+              Chk("C17", "up_to_limit_succeeds_with_less_than_a_token_of_room", line, e.err \notin {"MathError", "BankAssetCapacityExceeded"},
+                  [bank |-> bn, err |-> e.err, limit |-> b.cfg.deposit_limit])
          /\ Ok(e) => Chk("C17", "up_to_limit_deposits_at_most_requested", line,
                 RLe(RSub(NetPos(post.accts[e.a.acct], bn, q), NetPos(pre.accts[e.a.acct], bn, q)), RAdd(ROfBig(e.amt), TolConv(b, q))),
                 [bank |-> bn])
